@@ -138,7 +138,8 @@ class Hostile(Layout):
             if not out and kind == "opt" and nxt.get("want_space") and rng.random() < 0.7:
                 out = " "
             if self.comments and rng.random() < 0.12:
-                out += self._block_comment(False) + self._blanks(0)
+                # (a block comment inside a statement may span lines: the statement then continues on the next line)
+                out += self._block_comment(rng.random() < 0.25) + self._blanks(0)
                 self._note(kind, "block-comment")
             if kind == "sp" and not out:
                 out = " "
